@@ -5,7 +5,7 @@ STREAM_NOTE = ("Trusted base: the reference executor in vlib/monitor.py (semanti
                "the per-class table of permitted adjoint passes read from the docstrings, and Hypothesis "
                "as the source of randomness. Exploration, not proof: n<=10 (quick) / n<=24 (thorough) "
                "exhaustively, sampled to n=160 / 400.")
-STREAM_TECH = "property-based testing: exhaustive small boxes + Hypothesis-generated configs executed by a reference executor (validity-predicate oracle), collect-then-shrink"
+STREAM_TECH = "property-based testing: exhaustive small boxes + Hypothesis-generated configs + cold large-n probes + ordered sibling sequences in pristine processes, executed by a reference executor (validity-predicate oracle), collect-then-shrink"
 
 CHECKS = {
     "C01": dict(design_ref="DESIGN.md section 4 C01, 2.2", technique=STREAM_TECH, note=STREAM_NOTE,
@@ -32,30 +32,30 @@ ORACLE_NOTE = ("Trusted base: the independent oracles in vlib/oracles.py (exhaus
 
 CHECKS.update({
     "C05": dict(design_ref="DESIGN.md section 4 C05, 3.3", note=ORACLE_NOTE,
-                technique="property-based testing against a reference model: exhaustive optimal search (Dijkstra) + independent DP + Griewank-Walther closed form; exhaustive box + Hypothesis configs",
+                technique="property-based testing against a reference model: exhaustive optimal search (Dijkstra) + independent DP + Griewank-Walther closed form; exhaustive box + dense (n,s) grid + step-size scan (local optimality of n_advance for n<=1600/6000, candidates confirmed by streams) + boundary probe sequence + Hypothesis configs",
                 text="Forward-step totals of Multistage (every RAM/DISK split, both trajectories), Revolve (random costs) and optimal_steps_binomial are compared with the true optimum (exhaustive search over all executable schedules for n<=8/11) and with DP/closed form to n=64/400."),
     "C06": dict(design_ref="DESIGN.md section 4 C06, 3.3", note=ORACLE_NOTE,
-                technique="property-based testing against a reference model: exhaustive optimal search over mixed schedules + independent DP; metamorphic RAM vs DISK relation",
+                technique="property-based testing against a reference model: exhaustive optimal search over mixed schedules + independent DP; dense (n,s) grid to n=64/150, planner scan to n=220/420 (candidates confirmed by streams), boundary probe sequence in a pristine interpreter; metamorphic RAM vs DISK relation",
                 text="Mixed forward-step totals compared with the optimum over all schedules whose units hold a restart checkpoint or one step's adjoint data (search n<=8/11, DP to 64/300); RAM and DISK streams must be equal up to the label; helper optimal_steps_mixed must agree."),
     "C07": dict(design_ref="DESIGN.md section 4 C07, 3.3", note=ORACLE_NOTE,
-                technique="property-based testing: differential against exhaustive hierarchical search and independent H-Revolve/Disk-Revolve DPs, plus the metamorphic cost relations of the statement; asymmetric dyadic cost vectors by construction",
+                technique="property-based testing: differential against exhaustive hierarchical search and independent H-Revolve/Disk-Revolve DPs, plus the metamorphic cost relations of the statement; asymmetric dyadic cost vectors by construction; dense DP grid and cost-table scan (candidates confirmed by streams)",
                 text="Stream cost (uf, ub, wd, rd weighted counts) of HRevolve / Revolve / DiskRevolve equals the optimum from exhaustive search (n<=7/9) and DP (n to 64/300) for asymmetric cost vectors; monotonicity in disk units, DiskRevolve<=Revolve, Periodic>=DiskRevolve checked on every group."),
     "C09": dict(design_ref="DESIGN.md section 4 C09", technique=STREAM_TECH + "; flag model from the documented per-class pass table; pass k compared tuple-for-tuple with pass 1 and re-executed", note=STREAM_NOTE,
                 text="is_running / is_exhausted read before the first next() and after every action, streams driven 3 next() calls past their end, multi-pass classes run for 1..3 passes with each repeat compared with pass 1 and executed by the reference executor."),
     "C13": dict(design_ref="DESIGN.md section 4 C13", note=ORACLE_NOTE,
-                technique="property-based testing: exact expected forward sweep + per-(pass, block) comparison with the Griewank-Walther closed form (validated by exhaustive search in-run)",
+                technique="property-based testing: exact expected forward sweep + per-(pass, block) comparison with the Griewank-Walther closed form (validated by exhaustive search in-run); periods to 64, exhaustive full+partial-block box",
                 text="Forward sweep must equal the periodic DISK-checkpoint sequence exactly; every period block of every pass must be recomputed with exactly the binomial optimum for binomial_snapshots+1 units; extra checkpoints only in the binomial storage. period<=6/8 exhaustive, to 16 generated."),
     "C14": dict(design_ref="DESIGN.md section 4 C14", note=STREAM_NOTE,
                 technique="property-based testing: metamorphic relation across all RAM/DISK splits of one (n, trajectory, s) group + harness-side stack tracking and tie-independent traffic optimum",
                 text="All splits of s produce shape-identical streams; each stack position keeps one label; RAM-labelled positions <= declared; DISK accesses equal total minus the k largest per-position access counts. Exhaustive n<=18/26, groups to n=120/400."),
     "C16": dict(design_ref="DESIGN.md section 4 C16", note="numba cannot be installed offline: the tabulated planner is run by CPython+NumPy with the unmodified source (module attribute mixed.numba forced to a sentinel); the compiled artefact itself is not exercised.",
-                technique="property-based testing: differential between the tabulated and the memoised planner (every table entry, exhaustive) and between the streams produced on both code paths",
+                technique="property-based testing: differential between the tabulated and the memoised planner (every table entry of the square table N=100/200 and of the tall-narrow table n<=320/640, s<=40/64, exhaustive) and between the streams produced on both code paths",
                 text="Every entry (kind, length, cost) of mixed_steps_tabulation(N, N-1) for N=60/160 equals mixed_step_memoization; Mixed streams with the tabulated path forced equal the default streams by value and are executable."),
     "C17": dict(design_ref="DESIGN.md section 4 C17", note="Documented domain computed by the harness from the constructors/docstrings (DESIGN 2.1); negative unit counts and non-positive costs are outside the statement and never generated.",
-                technique="property-based testing: exhaustive box over valid AND invalid constructor tuples with a domain-membership oracle; generated valid tuples to n=160/400",
+                technique="property-based testing: exhaustive box over valid AND invalid constructor tuples with a domain-membership oracle; generated valid tuples to n=160/400; cold (pristine-process) large-n probes to n=1000/2000",
                 text="Valid tuples must construct and yield a complete stream (C02 completeness); invalid ones must raise at construction or at the first next(), never after an action. max_n in -1..8/16, all unit counts, all four storages, period -1..4."),
     "C18": dict(design_ref="DESIGN.md section 4 C18", note="Expected equality is computed from raw .args tuples and type identity; comparison with non-action objects is outside the statement.",
-                technique="property-based testing: field predicates on every emitted action + Hypothesis-generated actions and biased action pairs (==/!= truth table, repr round-trip, len/iter/in vs range)",
+                technique="property-based testing: field predicates on every emitted action + Hypothesis-generated actions and biased action pairs (==/!= truth table, repr round-trip, len/iter/in vs range); late-finalisation histories of the online classes",
                 text="Emitted actions of a stream sweep (incl. numpy-integer actions of the tabulated Mixed planner) are checked for the field predicates and value semantics; generated pairs check == / != never raise and equal type+args identity, repr round-trips, len/iteration/membership enumerate the covered steps."),
     "C19": dict(design_ref="DESIGN.md section 4 C19", note=ORACLE_NOTE,
                 technique="property-based testing: closed-form period oracle in exact rationals, same m required for 6-14 values of n per cost vector; per-segment Revolve optimum via Griewank-Walther",
@@ -69,7 +69,7 @@ CHECKS.update({
                 text="Call histories of next(), finalize(k) (k from -1,0,1,told-1,told,told+1,max_n,random) and observer reads on one object of any class: outcome (success/ValueError/RuntimeError), post-state and 'next action is EndForward' per the reference model; rejected calls must leave observers and the subsequent stream (vs. twin) unchanged."),
     "C15": dict(design_ref="DESIGN.md section 4 C15, 3.4", engine="hypothesis-stateful",
                 note="Trusted base: vlib/golden.py (fresh interpreter, forked pristine child per config) as the oracle; every history itself runs in a child forked from a pristine worker. Bounded histories (40/80 rules, <=6 live objects).",
-                technique="model-based stateful testing: Hypothesis RuleBasedStateMachine interleaving up to 6 live schedules, observer reads and memo-table pokes; differential against the stream of the same config in a fresh interpreter; delta-debugging minimiser",
+                technique="model-based stateful testing: Hypothesis RuleBasedStateMachine interleaving up to 6 live schedules, observer reads and memo-table pokes; sibling/variant configs and an exhaustive ordered sibling-pair sweep (A,B / B before A / A,B,A), each history in a pristine forked child; differential against the stream of the same config in a fresh interpreter; delta-debugging minimiser",
                 text="Histories create/advance/observe/poke/finish over up to 6 live objects of all classes; every object's recorded stream must equal the stream the same config produces in a fresh interpreter (prefix-equal if stopped early)."),
 })
 
